@@ -497,6 +497,12 @@ class EIG(BaseRoutine):
             logger.error('No dynamic model. Eig analysis will not continue.')
             status = False
 
+        else:
+            # re-evaluate the equations and Jacobians at the current point;
+            # parameters may have been altered since they were last computed
+            system.TDS.fg_update(system.exist.pflow_tds)
+            system.j_update(system.exist.pflow_tds)
+
         return status
 
     @check_conn_before_init
